@@ -91,9 +91,23 @@ func TestC03(t *testing.T) {
 		nonceLen := rapid.SampledFrom([]int{12, 24}).Draw(rt, "nonceLen")
 		key, _ := genKey(rt, "key")
 		nonce, _ := gen.Bytes(rt, "nonce", nonceLen)
-		ciph, err := chacha20.NewUnauthenticatedCipher(key, nonce)
+		ciph, scribble, err := newStream(key, nonce) // key/nonce buffers handed to the constructor are overwritten from now on
 		if err != nil {
 			rt.Fatalf("VF-VIOLATION: property=C03 NewUnauthenticatedCipher(32-byte key, %d-byte nonce): %v", nonceLen, err)
+		}
+		if nonceLen == 24 {
+			// HChaCha20 itself: value, inputs untouched, output not aliasing the inputs
+			kb, nb := clone(key), clone(nonce[:16])
+			sub, herr := chacha20.HChaCha20(kb, nb)
+			wantSub := refaead.HChaCha20(key, nonce[:16])
+			if herr != nil || !bytes.Equal(sub, wantSub) || !bytes.Equal(kb, key) || !bytes.Equal(nb, nonce[:16]) {
+				rt.Fatalf("VF-VIOLATION: property=C03 HChaCha20(%x, %x) = %x, %v; draft-irtf-cfrg-xchacha-01 gives %x (inputs modified: %v)", key, nonce[:16], sub, herr, wantSub, !bytes.Equal(kb, key) || !bytes.Equal(nb, nonce[:16]))
+			}
+			fillPattern(kb, 1)
+			fillPattern(nb, 2)
+			if !bytes.Equal(sub, wantSub) {
+				rt.Fatalf("VF-VIOLATION: property=C03 HChaCha20 output changed when the caller overwrote its key/nonce buffers afterwards")
+			}
 		}
 		var pos uint64
 		startClass := "start=0"
@@ -134,6 +148,7 @@ func TestC03(t *testing.T) {
 		split, setSeen, lastBlock, ended := false, false, false, ""
 		var classes []string
 		for i := 0; i < nsteps && ended == ""; i++ {
+			scribble()
 			cur := (pos + 63) / 64 // blocks consumed or started; 2^32 when the last block was started
 			if rapid.IntRange(0, 3).Draw(rt, "op") == 0 {
 				// SetCounter
@@ -289,7 +304,7 @@ func TestC03(t *testing.T) {
 		want := refaead.XOR(key, nonce, start, msg)
 		for cut := 0; cut <= len(msg); cut++ {
 			for _, over := range []int{0, 1} {
-				ciph, _ := chacha20.NewUnauthenticatedCipher(key, nonce)
+				ciph, _, _ := newStream(key, nonce)
 				ciph.SetCounter(uint32(start / 64))
 				out := make([]byte, len(msg)+over)
 				in := append(clone(msg), make([]byte, over)...)
